@@ -82,9 +82,10 @@ impl<T> ChannelSlots<T> {
         // First try to grab the next available channel ID we're aware of; this
         // could fail if a user requested a channel ID greater than the ones we've
         // handed out from within this function, so keep looking.
-        while self.next_channel_id <= self.channel_max {
+        while self.next_channel_id != 0 && self.next_channel_id <= self.channel_max {
             let channel_id = self.next_channel_id;
-            self.next_channel_id += 1;
+            // 0 marks the counter as used up (it cannot go past u16::MAX)
+            self.next_channel_id = self.next_channel_id.checked_add(1).unwrap_or(0);
             match self.slots.entry(channel_id) {
                 Entry::Occupied(_) => continue,
                 Entry::Vacant(entry) => {
